@@ -105,41 +105,5 @@ theorem noeos_step (hi : Inv s) (h : step s l = some s') :
   cases l <;> step_cases h <;> (try simp only [upd_apply]) <;> (try split) <;> simp_all
   all_goals grind
 
-theorem live_stream_step (hi : Inv s) (h : step s l = some s') :
-    ∀ w p, s'.pc w = some p → p.live = true → s'.streams w.key ≠ none := by
-  have h1 := hi.live_stream
-  have h2 := hi.uniq
-  have h3 := hi.hand_none
-  have h4 := hi.pend_iff
-  have h5 := hi.no_checked
-  intro w p
-  cases l <;> step_cases h <;> (try simp only [upd_apply]) <;> (try split) <;> simp_all
-  all_goals grind [Pc.live_pending, Pc.live_spawned, Pc.live_waiting, Pc.live_busy, Pc.live_leaving]
-
-theorem uniq_step (hi : Inv s) (h : step s l = some s') :
-    ∀ w w' p p', s'.pc w = some p → s'.pc w' = some p' → p.live = true → p'.live = true →
-      w.key = w'.key → w = w' := by
-  have h1 := hi.live_stream
-  have h2 := hi.uniq
-  have h3 := hi.hand_none
-  have h4 := hi.pend_iff
-  have h5 := hi.no_checked
-  have h6 := hi.fresh
-  intro w w' p p'
-  cases l <;> step_cases h <;> (try dsimp only)
-  all_goals grind [upd_apply, Pc.live_pending, Pc.live_spawned, Pc.live_waiting, Pc.live_busy, Pc.live_leaving]
-
-theorem nonempty_step (hi : Inv s) (h : step s l = some s') :
-    ∀ w, (s'.pc w = some .pending ∨ s'.pc w = some .spawned) → s'.streams w.key ≠ some [] := by
-  have h1 := hi.nonempty
-  have h2 := hi.uniq
-  have h3 := hi.hand_none
-  have h5 := hi.no_checked
-  have h6 : ∀ w rest, s.pendingQ = w :: rest → s.pc w = some .pending := by
-    intro w rest hq; exact (hi.pend_iff w).1 (by simp [hq])
-  intro w
-  cases l <;> step_cases h <;> (try dsimp only)
-  all_goals grind [upd_apply, List.append_eq_nil_iff, Pc.live_pending, Pc.live_spawned, Pc.live_waiting, Pc.live_busy, Pc.live_leaving]
-
 end
 end Kopf.C01
